@@ -42,6 +42,11 @@ POISONS = ['nan', 'noise', 'big', 'negbig', 'ones', 'zero']
 def generate(rng, tier, idx):
     thorough = tier == 'thorough'
     table = vinelib.rand_vine_table(rng, 2, 7, 60, 300 if thorough else 150)
+    if rng.random() < 0.2:
+        # very small tables: Kendall's tau takes few distinct values, so exact ties between
+        # pairwise |tau| - in every relative position - are the rule
+        table['n'] = rng.randint(8, 15)
+        table.pop('round', None)
     d = len(table['margs'])
     configs = []
     for vt in ('center', 'direct', 'regular'):
@@ -50,6 +55,8 @@ def generate(rng, tier, idx):
             truncs = sorted(set([rng.randint(1, d), max(1, d - 1)]))
         for t in truncs:
             configs.append({'type': vt, 'trunc': t})
+        if rng.random() < 0.5:
+            configs.append({'type': vt, 'trunc': None})     # fit(X): the documented default, 3
     patterns = ['nan', 'noise'] + [rng.choice(['big', 'negbig', 'ones', 'zero'])]
     return {'table': table, 'ops': configs, 'poisons': patterns,
             'pseed': rng.randrange(1000), 'prefit': rng.random() < 0.3,
@@ -96,7 +103,8 @@ def execute(run):
             vine, out = vinelib.fit_vine(cfg['type'], cfg['trunc'], df, p, run['pseed'],
                                          prefit=prefit)
             ctx.faults['F3_allocator_garbage:' + p] += 1
-            cond = {'vine_type': cfg['type'], 'd': d, 'truncated': cfg['trunc'], 'poison': p,
+            cond = {'vine_type': cfg['type'], 'd': d, 'truncated': cfg['trunc'] or 'default',
+                    'poison': p,
                     'refit': prefit is not None, 'pattern': run['table'].get('pattern'),
                     'data_ties': bool(run['table'].get('round'))}
             if out[0] != 'ok':
@@ -111,7 +119,7 @@ def execute(run):
                     ctx.probes['fit_raised_on_near_perfect_dependence'] += 1
                 ctx.event('fit', cfg, p, outcome_class(out))
                 continue
-            problems = refs.check_vine(vine.trees, d, cfg['trunc'], cfg['type'])
+            problems = refs.check_vine(vine.trees, d, cfg['trunc'] or 3, cfg['type'])
             seen = set()
             for clause, detail in problems:
                 if clause in seen:
@@ -124,8 +132,10 @@ def execute(run):
                     ctx.violate('regular_first_tree_is_maximum_spanning_tree', SUBJECT,
                                 'first tree weight %.12f, maximum spanning tree weight %.12f'
                                 % (w, want_mst), **cond)
-            if cfg['trunc'] < d - 1:
+            if (cfg['trunc'] or 3) < d - 1:
                 ctx.probes['truncation_below_d_minus_1'] += 1
+            if cfg['trunc'] is None:
+                ctx.probes['fit_with_default_truncation'] += 1
             if len(vine.trees) >= 3:
                 ctx.probes['vine_with_level_3_or_deeper'] += 1
             if len(vine.trees) >= 2 and p != 'zero':
@@ -136,7 +146,7 @@ def execute(run):
             for e in vine.trees[0].edges:
                 deg[e.L] = deg.get(e.L, 0) + 1
                 deg[e.R] = deg.get(e.R, 0) + 1
-            st = '|'.join([cfg['type'], str(d), str(cfg['trunc']),
+            st = '|'.join([cfg['type'], str(d), str(cfg['trunc'] or 'default'),
                            ''.join(map(str, sorted(deg.values())))])
             ctx.states.add(st)
             fams = ''.join(vinelib.fam_of(e)[0] for t in vine.trees for e in t.edges)
@@ -145,5 +155,5 @@ def execute(run):
         if len(sigs) >= 2 and any(s != sigs[0] for s in sigs[1:]):
             # reported only: "same structure under every content" is C19's clause
             ctx.probes['structure_depends_on_allocator_content'] += 1
-        ctx.shape.append('%s|%d|%d|%d' % (cfg['type'], d, cfg['trunc'], len(sigs)))
+        ctx.shape.append('%s|%d|%s|%d' % (cfg['type'], d, cfg['trunc'] or 'default', len(sigs)))
     return ctx.result()
